@@ -1065,6 +1065,35 @@ def _process(template_path, gen, variant):
                 else:
                     emit_item(gen, sf, it, opts, blk, f"{it.kind} {it.name}")
             i = j + 1
+        elif d.startswith("transcribes "):
+            # `//@ transcribes <repo path> :: impl X :: fn f :: sha=<16 hex>` in front of a hand-written stub whose contract
+            # transcribes the body of the named function (SQL statements of the DBMs).  The body is not under contract, but
+            # if its text is no longer the text that was transcribed the stub can no longer be trusted: undecided (exit 2).
+            parts = split_opts(d[len("transcribes "):])
+            rel, sel = parts[0], parts[1]
+            sf = SourceFile.get(rel)
+            sha = [x for x in parts if x.startswith("sha=")]
+            want = sha[0][4:] if sha else ""
+            if re.match(r"impl\b", sel):
+                impl = sf.find_impl(sel)
+                name = [x for x in parts[2:] if x.startswith("fn ")][0][3:].strip()
+                cands = [x for x in sf.impl_items(impl) if x.kind == "fn" and x.name == name]
+                if len(cands) != 1:
+                    raise ExtractError("lost-anchor", f"{rel}: `{sel}` has {len(cands)} methods named {name} (transcribed by a stub)")
+                it = cands[0]
+                what = _impl_type_name(impl.header) + "::" + name
+            else:
+                it = sf.find(sel)
+                what = it.name
+            raw = sf.src[it.start:it.end]
+            got = hashlib.sha256(raw.encode()).hexdigest()[:16]
+            gen.transcribed = getattr(gen, "transcribed", [])
+            gen.transcribed.append({"item": what, "source": rel, "sha256": got, "expected": want})
+            if got != want and not os.environ.get("VERIF_IGNORE_TRANSCRIPTIONS"):
+                raise ExtractError("stale-transcription", f"{rel}: the text of {what} changed since its stub contract was transcribed "
+                                   f"(sha {got}, transcribed {want or 'never'}): the stub is no longer known to describe it")
+            gen.trusted.append(f"stub contract transcribes {rel} {what} (text unchanged since transcription, sha {got})")
+            i += 1
         elif d.startswith("#") or d == "":
             i += 1
         else:
